@@ -38,6 +38,8 @@ def seeded_catalogue():
         meta = os.path.join(root, d, "meta.json")
         if os.path.exists(meta):
             m = json.load(open(meta))
+            if m.get("obsolete"):
+                continue      # made impossible by a later repair of /repo (the reason is in meta.json)
             out.append({"id": "seeded/" + d, "props": m["checks"] if "checks" in m else [m["property"]],
                         "patch": os.path.join(root, d, "patch.diff"), "expect": "benign" if m.get("benign") else "break"})
     return out
